@@ -60,16 +60,8 @@ int main(int argc, char** argv) {
 		return true;
 	};
 
-	if (!args.replay.empty()) {
-		vf::Json r = vf::Json::load(args.replay); std::string d; std::string k = r.at("kind").s;
-		if (k == "m1") m1_case((int)r.at("b").num(), (unsigned)r.at("dw").num(), (unsigned)r.at("cf").num(), 0, (uint64_t)r.at("lowd").num(), (uint64_t)r.at("lowc").num(), d);
-		else if (k == "m2") { Interp I; I.begin(); int b = (int)r.at("b").num(); uint32_t imm = (uint32_t)r.at("imm32").num(); I.decode(W(opCB, 3, 0, (b - JO) << 4, imm)); if (!premise_ok(I.bc.imm, I.bc.memMask, b, imm)) d = "premise violated"; }
-		else d = "structural case: rerun the check";
-		printf("replay: %s\n", d.empty() ? "holds" : d.c_str()); return d.empty() ? 0 : 1;
-	}
-
 	const int nsh = 64;
-	vf::Result total = vf::run_shards(args, nsh + 2, [&](int shard) {
+	auto shard_fn = [&](int shard) -> vf::Result {
 		vf::Result R;
 		auto viol = [&](const std::string& key, const std::string& what, const vf::Json& rp) { if (R.viol.size() < 3) { vf::Violation v; v.key = key; v.what = what; v.replay = rp; R.viol.push_back(v); } };
 		if (shard == nsh) {
@@ -192,7 +184,16 @@ int main(int argc, char** argv) {
 		}
 		if (shard == 0) R.sample(vf::Json::obj().set("kind", "m2").set("b", 8).set("imm32", "0xffffffff").set("expect", "cimm = 0xffffffffffffff7f | 0x100, mask 0xff00"), 1);
 		return R;
-	});
+	};
+	if (!args.replay.empty()) {
+		vf::Json r = vf::Json::load(args.replay); std::string d; std::string k = r.at("kind").s;
+		if (k == "m1") m1_case((int)r.at("b").num(), (unsigned)r.at("dw").num(), (unsigned)r.at("cf").num(), 0, (uint64_t)r.at("lowd").num(), (uint64_t)r.at("lowc").num(), d);
+		else if (k == "m2") { Interp I; I.begin(); int b = (int)r.at("b").num(); uint32_t imm = (uint32_t)r.at("imm32").num(); I.decode(W(opCB, 3, 0, (b - JO) << 4, imm)); if (!premise_ok(I.bc.imm, I.bc.memMask, b, imm)) d = "premise violated"; }
+		else { vf::Result rr = shard_fn(k == "model" ? nsh : nsh + 1); if (!rr.viol.empty()) d = rr.viol[0].what; }   // structural / model cases: re-run that part in this process
+		printf("replay: %s\n", d.empty() ? "holds" : d.c_str()); return d.empty() ? 0 : 1;
+	}
+
+	vf::Result total = vf::run_shards(args, nsh + 2, shard_fn);
 	vf::Evidence ev; ev.level = "model_checking";
 	ev.coverage.set("states", (unsigned long long)total.n["model_states"]).set("transitions", (unsigned long long)total.n["transitions"]).set("traces_validated_against_impl", (unsigned long long)total.n["traces_replayed"])
 		.set("evaluations", (unsigned long long)(total.n["premise_cases"] + total.n["jit_premise_cases"] + total.n["structural_programs"] + total.n["traces_replayed"])).set("distinct_nontrivial", (unsigned long long)(total.n["model_states"]))
